@@ -6,3 +6,4 @@ export CARGO_TARGET_DIR=/verif/target
 mkdir -p /verif/target
 cargo build --release --offline --manifest-path harness/Cargo.toml || exit 1
 cargo build --offline --no-default-features --manifest-path /repo/Cargo.toml --target-dir /verif/target/n2bin || exit 1
+tools/loom_prepare.sh >/dev/null || exit 1
